@@ -29,6 +29,8 @@ pub fn run(tier: &str, seed: u64, outdir: &str, _extra: &[String]) {
     files.extend(corpus::generated_animations(&mut rng, if thorough { 60 } else { 15 }, 16));
     files.extend(corpus::generated_filtered_alpha_stills(&mut rng, if thorough { 160 } else { 40 }, 24));
     files.extend(corpus::generated_vp8l(&mut rng, if thorough { 100 } else { 25 }));
+    let scaled = corpus::with_scale_bits(&mut rng, &files, 3);
+    files.extend(scaled);
     let mut violations: Vec<String> = vec![];
     let mut known_f18 = 0u64;
     let (mut evals, mut wrong_len_checks, mut wrap_checks, mut prefill_checks) = (0u64, 0u64, 0u64, 0u64);
